@@ -7,6 +7,8 @@ import shapes as S
 import knotops as KO
 
 PID = 'C18'
+FLOAT_KINDS = {'bbox'}      # float-mode companion (core.float_companion)
+FLOAT_TOL = 1e-12
 STATS = G.STATS
 PARTIAL = [
     "length_curve: polyline >= chord and <= control polygon are checked by the oracle in floating point (sqrt); not a Lean theorem",
